@@ -217,6 +217,10 @@ def run(ctx):
         n += 1
         ctx.ob("C06.row-boundary", len(ends) == 1, "end_row ends %d packets for one row" % len(ends), fn=er.path, construct="one-packet-per-row", where=er.where(p.blocks[-1]))
     ctx.floor("C06.row-boundary", "Ok paths of end_row with columns", n, 2)
+    # cells and rows of 16 MiB and more are split by the framer: the framing clauses (C04's rules) are part of
+    # `arrives unchanged` for the size classes this property quantifies over
+    import rules.C04 as C04
+    C04.run(ctx, configs=["tls"])
 
 
 def at_rem(x, k, secs):
